@@ -157,6 +157,10 @@ spec('C10', run=run_c10, search=search_with(run_c10),
 
 def run_c15(ctx, tier=None, seed=None):
     std_pipe(ctx, 'ops-from', 'wide', 'ops', 'all', tier=tier, seed=seed, only=r'^from ')
+    # the same conversions again without autoconvert (the feature-gated twin copies the stored value:
+    # only shared base units may compile there)
+    std_pipe(ctx, 'ops-from-noauto', 'wide-noauto', 'ops', 'all', tier=tier, seed=seed, only=r'^from ')
+    mixed_base_programs(ctx, select='.into()')
 
 
 spec('C15', run=run_c15, search=search_with(run_c15),
@@ -188,6 +192,8 @@ def run_c17(ctx, tier=None, seed=None):
     seed = ctx.seed if seed is None else seed
     outdir = os.path.join(VERIF, 'build', 'c17')
     os.makedirs(outdir, exist_ok=True)
+    # "mixed-base-unit operands are then rejected at compile time"
+    mixed_base_programs(ctx)
     files = {}
     from concurrent.futures import ThreadPoolExecutor
     with ThreadPoolExecutor(max_workers=4) as ex:
@@ -246,6 +252,21 @@ def run_c17(ctx, tier=None, seed=None):
             ctx.known.append(f8)
         ctx.counts['c17:%s:known-differences' % what] = n_known
 
+    # std-only methods (mul_add, hypot) on operands sharing base units: autoconvert on vs off
+    sf = {}
+    for fs in ('fl', 'fl-noauto'):
+        path = os.path.join(outdir, '%s.samefloat.txt' % fs)
+        if subprocess.call('%s samefloat > %s' % (bin_path('ops', False, fs), path), shell=True, env=env) != 0:
+            ctx.problems.append(Problem('harness-broken', 'transcript run failed (samefloat, %s)' % fs))
+            return
+        files[(fs, 'samefloat')] = path
+        lines[(fs, 'samefloat')] = open(path, encoding='utf-8').read().splitlines()
+    ctx.extra['evaluations'] += sum(len(lines[(fs, 'samefloat')]) for fs in ('fl', 'fl-noauto'))
+    if not lines[('fl', 'samefloat')]:
+        ctx.problems.append(Problem('harness-broken', 'no same-base mul_add/hypot cases'))
+    compare(('fl', 'samefloat'), ('fl-noauto', 'samefloat'), 'autoconvert on/off, std, mul_add/hypot', False)
+    res = pipe(ctx, 'model-fl-noauto-samefloat', "cat %s" % files[('fl-noauto', 'samefloat')], shards=1, tier=tier, seed=seed)
+    absorb(ctx, res, 'model-fl-noauto-samefloat')
     for b, _ in C17_RUNS:
         compare(('fl', b), ('fl-noauto', b), 'autoconvert on/off, std, %s' % b, False)
         compare(('fl-nostd', b), ('fl-nostd-noauto', b), 'autoconvert on/off, no_std, %s' % b, False)
@@ -601,21 +622,23 @@ def run_c01(ctx, tier=None, seed=None):
     ctx.extra['pairs_probed'] = npairs
     ctx.extra['interchangeability_bindings_type_checked'] = ninter
     from main import _built
-    _built.discard(('fl', ('probe01',), False))
-    n_before = len(ctx.problems)
-    if not cargo_build(ctx, 'fl', ['probe01']):
-        # a failing `let _c: C = a * b;` is the property failing: the result type is not the named quantity
-        p = ctx.problems[-1]
-        errs = re.findall(r'(error\[E\d+\][^\n]*\n\s*--> src/bin/\.\./gen/probe01_gen\.rs:\d+:\d+[^\n]*(?:\n[^\n]*){0,6})', p.detail or '')
-        if errs:
-            ctx.problems[-1] = Problem('property-fails', 'a result type is not interchangeable with the named default-kind quantity of its dimension (probe does not type-check)',
-                                       detail=errs[0][:1500], line=errs[0].splitlines()[0], failing_input=True, cmd='cargo build --bin probe01 (src/gen/probe01_gen.rs)', tag='interchangeable')
-        return
     dump = lean_dump(ctx)
-    if dump is None:
-        return
-    res = pipe(ctx, 'result-types', '{ cat %s; %s; }' % (dump, bin_path('probe01', False, 'fl')), shards=1, tier=tier, seed=seed)
-    absorb(ctx, res, 'result-types')
+    # the operator impls have feature-gated twins with their own `type Output`: both configurations
+    for feats in ('fl', 'fl-noauto'):
+        _built.discard((feats, ('probe01',), False))
+        if not cargo_build(ctx, feats, ['probe01']):
+            # a failing `let _c: C = a * b;` is the property failing: the result type is not the named quantity
+            p = ctx.problems[-1]
+            errs = re.findall(r'(error\[E\d+\][^\n]*\n\s*--> src/bin/\.\./gen/probe01_gen\.rs:\d+:\d+[^\n]*(?:\n[^\n]*){0,6})', p.detail or '')
+            if errs:
+                ctx.problems[-1] = Problem('property-fails', 'a result type is not interchangeable with the named default-kind quantity of its dimension (probe does not type-check; features %s)' % feats,
+                                           detail=errs[0][:1500], line=errs[0].splitlines()[0], failing_input=True,
+                                           cmd='cargo build --features %s --bin probe01 (src/gen/probe01_gen.rs)' % feats, tag='interchangeable')
+            continue
+        if dump is None:
+            return
+        res = pipe(ctx, 'result-types' + ('' if feats == 'fl' else '-noauto'), '{ cat %s; %s; }' % (dump, bin_path('probe01', False, feats)), shards=1, tier=tier, seed=seed)
+        absorb(ctx, res, 'result-types')
 
 
 spec('C01', run=run_c01, search=search_with(run_c01, seeds=(7,)),
@@ -625,6 +648,59 @@ spec('C01', run=run_c01, search=search_with(run_c01, seeds=(7,)),
           'non-trivial: operands of different dimension',
      trusted_base=['rustc’s trait solver and typenum are the implementation under test, not modelled'],
      assumptions=['f64 storage (the impls are generic in V)'])
+
+
+def mixed_base_programs(ctx, select=None):
+    """programs whose two operands live in different base-unit sets: accepted with autoconvert, rejected
+    without (C02, C15 for the kind conversions, C17's compile-time half); `select` filters by substring"""
+    import probes
+    pdir = os.path.join(VERIF, 'build', 'probes02')
+    os.makedirs(pdir, exist_ok=True)
+    # mixed base units: accepted with autoconvert, rejected without (C17's compile-time half)
+    mixed_src = os.path.join(pdir, 'mixed_%s.rs' % ctx.prop)
+    units = 'length = uom::si::length::centimeter, mass = uom::si::mass::gram, time = uom::si::time::second, electric_current = uom::si::electric_current::ampere, ' \
+            'thermodynamic_temperature = uom::si::thermodynamic_temperature::kelvin, amount_of_substance = uom::si::amount_of_substance::mole, luminous_intensity = uom::si::luminous_intensity::candela'
+    header = ('#![allow(unused)]\ntype Cgs = dyn uom::si::Units<f64, %s>;\ntype L = uom::si::length::Length<Cgs, f64>;\ntype M = uom::si::f64::Length;\n'
+              'type AreaC = uom::si::area::Area<Cgs, f64>;\ntype TtC = uom::si::thermodynamic_temperature::ThermodynamicTemperature<Cgs, f64>;\n'
+              'type TiC = uom::si::temperature_interval::TemperatureInterval<Cgs, f64>;\ntype StC = uom::si::surface_tension::SurfaceTension<Cgs, f64>;\n'
+              'type AngC = uom::si::angle::Angle<Cgs, f64>;\n' % units)
+    programs = [('L', 'M', b) for b in ['let _ = a + b;', 'let _ = a - b;', 'let _ = a == b;', 'let _ = a < b;', 'let _ = a * b;', 'let _ = a / b;', 'let _ = a % b;',
+                                        'let mut a = a; a += b;', 'let _ = a.partial_cmp(&b);', 'let mut a = a; a -= b;', 'let mut a = a; a %= b;', 'let _ = a != b;',
+                                        'let _ = a >= b;', 'let _ = a.hypot(b);']]
+    programs += [
+        ('L', 'M', 'let _ = a.mul_add(b, <uom::si::f64::Area as uom::num::Zero>::zero());'),
+        ('L', 'M', 'let _ = b.mul_add(b, <AreaC as uom::num::Zero>::zero()); let _ = a;'),
+        # temperature arithmetic and kind conversions across base-unit sets
+        ('TtC', 'uom::si::f64::TemperatureInterval', 'let _ = a + b;'),
+        ('TtC', 'uom::si::f64::TemperatureInterval', 'let _ = a - b;'),
+        ('TtC', 'uom::si::f64::TemperatureInterval', 'let mut a = a; a += b;'),
+        ('TiC', 'uom::si::f64::ThermodynamicTemperature', 'let _ = a + b;'),
+        ('StC', 'uom::si::f64::RadiantExposure', 'let _x: StC = b.into(); let _ = a;'),
+        ('StC', 'uom::si::f64::RadiantExposure', 'let _x: uom::si::f64::RadiantExposure = a.into(); let _ = b;'),
+        ('AngC', 'uom::si::f64::Ratio', 'let _x: AngC = b.into(); let _ = a;'),
+        ('AngC', 'uom::si::f64::Ratio', 'let _x: uom::si::f64::Ratio = a.into(); let _ = b;'),
+    ]
+    if select:
+        programs = [p for p in programs if select in p[2]]
+    nhead = header.count('\n')
+    with open(mixed_src, 'w', encoding='utf-8') as f:
+        f.write(header)
+        for i, (ta, tb, body) in enumerate(programs):
+            f.write('pub fn m%d(a: %s, b: %s) { %s }\n' % (i, ta, tb, body))
+    for fs, expect_ok in (('wide', True), ('fl-noauto', False)):
+        if not cargo_build(ctx, fs, []):
+            continue
+        rl, dp = probes.find_rlib(fs)
+        bad, other = probes.rustc_rejects(mixed_src, rl, dp)
+        for i, (ta, tb, body) in enumerate(programs):
+            ok = (i + nhead + 1) not in bad
+            if ok != expect_ok:
+                ctx.problems.append(Problem('property-fails', 'mixed-base-unit program `fn m%d(a: %s, b: %s) { %s }` %s with feature set %s' % (
+                    i, ta, tb, body, 'compiles' if ok else 'is rejected', fs),
+                                            line='mixed.rs fn m%d' % i, failing_input=True, cmd='rustc %s' % mixed_src, tag='mixed-base'))
+        ctx.extra['mixed_base_programs_%s' % fs] = len(programs)
+
+
 
 
 def run_c02(ctx, tier=None, seed=None):
@@ -693,35 +769,16 @@ def run_c02(ctx, tier=None, seed=None):
     ctx.extra['probe_functions'] = len(cases)
     ctx.extra['class_pairs'] = len(pairs)
     ctx.extra['classes'] = len(keys)
-    # mixed base units: accepted with autoconvert, rejected without (C17's compile-time half)
-    mixed_src = os.path.join(pdir, 'mixed.rs')
-    units = 'length = uom::si::length::centimeter, mass = uom::si::mass::gram, time = uom::si::time::second, electric_current = uom::si::electric_current::ampere, ' \
-            'thermodynamic_temperature = uom::si::thermodynamic_temperature::kelvin, amount_of_substance = uom::si::amount_of_substance::mole, luminous_intensity = uom::si::luminous_intensity::candela'
-    with open(mixed_src, 'w', encoding='utf-8') as f:
-        f.write('#![allow(unused)]\ntype Cgs = dyn uom::si::Units<f64, %s>;\ntype L = uom::si::length::Length<Cgs, f64>;\ntype M = uom::si::f64::Length;\n' % units)
-        for i, body in enumerate(['let _ = a + b;', 'let _ = a - b;', 'let _ = a == b;', 'let _ = a < b;', 'let _ = a * b;', 'let _ = a / b;', 'let _ = a % b;', 'let mut a = a; a += b;',
-                                  'let _ = a.partial_cmp(&b);']):
-            f.write('pub fn m%d(a: L, b: M) { %s }\n' % (i, body))
-    for fs, expect_ok in (('wide', True), ('fl-noauto', False)):
-        if not cargo_build(ctx, fs, []):
-            continue
-        rl, dp = probes.find_rlib(fs)
-        bad, other = probes.rustc_rejects(mixed_src, rl, dp)
-        for i in range(9):
-            ok = (i + 5) not in bad
-            if ok != expect_ok:
-                ctx.problems.append(Problem('property-fails', 'mixed-base-unit program m%d %s with feature set %s' % (i, 'compiles' if ok else 'is rejected', fs),
-                                            line='mixed.rs fn m%d' % i, failing_input=True, cmd='rustc %s' % mixed_src, tag='mixed-base'))
-        ctx.extra['mixed_base_programs_%s' % fs] = 9
+    mixed_base_programs(ctx)
 
 
 spec('C02', run=run_c02, search=None,
-     rule='one probe function per (form, class pair): 16 forms (+ − % += −= %= == < partial_cmp Ord::max let-binding hypot atan2 new::<foreign> get::<foreign> From/Into) × '
-          '400 seeded + all same-dimension-different-kind ordered pairs of the (dimension, kind) classes of the SI (thorough: all pairs), 19 forms on every class with itself '
+     rule='one probe function per (form, class pair): 19 forms (+ − % += −= %= == < partial_cmp Ord::max let-binding hypot atan2 new::<foreign> get::<foreign> From/Into saturating_add saturating_sub Sum) × '
+          '400 seeded + all same-dimension-different-kind ordered pairs of the (dimension, kind) classes of the SI (thorough: all pairs), 22 forms on every class with itself '
           '(positive controls, marker-dependent forms, sqrt/cbrt/neg), same-type-different-module pairs; rustc’s verdict per function (primary error span → function) compared '
-          'with the acceptance relation; 9 mixed-base programs under autoconvert on/off; non-trivial: the two types differ',
+          'with the acceptance relation; 24 mixed-base programs (all operator forms, hypot, mul_add, temperature arithmetic, kind conversions) under autoconvert on/off; non-trivial: the two types differ',
      trusted_base=['rustc is the implementation under test; a probe is “rejected” when an error’s primary span lies in its line'],
-     assumptions=['f64 storage for all forms except Ord::max (i32)'])
+     assumptions=['f64 storage for all forms except Ord::max and the saturating forms (i32)'])
 
 
 # ------------------------------------------------------------------------------------------------
